@@ -7,7 +7,6 @@ import (
 
 	"github.com/dominikbraun/graph"
 	"github.com/dominikbraun/graph/draw"
-	"golang.org/x/sync/errgroup"
 )
 
 type TaskfileGraph struct {
@@ -46,67 +45,60 @@ func (tfg *TaskfileGraph) Visualize(filename string) error {
 }
 
 func (tfg *TaskfileGraph) Merge() (*Taskfile, error) {
-	hashes, err := graph.TopologicalSort(tfg.Graph)
+	hashes, err := graph.StableTopologicalSort(tfg.Graph, func(a, b string) bool { return a < b })
 	if err != nil {
 		return nil, err
 	}
 
-	predecessorMap, err := tfg.PredecessorMap()
+	adjacencyMap, err := tfg.AdjacencyMap()
 	if err != nil {
 		return nil, err
 	}
 
-	// Loop over each vertex in reverse topological order except for the root vertex.
-	// This gives us a loop over every included Taskfile in an order which is safe to merge.
-	for i := len(hashes) - 1; i > 0; i-- {
+	// Loop over each vertex in reverse topological order, the root vertex
+	// last: every included Taskfile is complete before it is merged into a
+	// Taskfile that includes it. The includes of a Taskfile are merged in the
+	// order in which that Taskfile declares them, so neither the order of the
+	// topological sort nor the order in which the reader's goroutines finished
+	// has an influence on the result.
+	for i := len(hashes) - 1; i >= 0; i-- {
 		hash := hashes[i]
 
-		// Get the included vertex
-		includedVertex, err := tfg.Vertex(hash)
+		vertex, err := tfg.Vertex(hash)
 		if err != nil {
 			return nil, err
 		}
 
-		// Create an error group to wait for all the included Taskfiles to be merged with all its parents
-		var g errgroup.Group
-
-		// Loop over edge that leads to a vertex that includes the current vertex
-		for _, edge := range predecessorMap[hash] {
-
-			// Start a goroutine to process each included Taskfile
-			g.Go(func() error {
-				// Get the base vertex
-				vertex, err := tfg.Vertex(edge.Source)
-				if err != nil {
-					return err
-				}
-
-				// Get the merge options
-				includes, ok := edge.Properties.Data.([]*Include)
-				if !ok {
-					return fmt.Errorf("task: Failed to get merge options")
-				}
-
-				// Merge the included Taskfiles into the parent Taskfile
-				for _, include := range includes {
-					if err := vertex.Taskfile.Merge(
-						includedVertex.Taskfile,
-						include,
-					); err != nil {
-						return err
-					}
-				}
-
-				return nil
-			})
-			if err := g.Wait(); err != nil {
-				return nil, err
+		// Index the resolved includes of this Taskfile by namespace
+		type resolvedInclude struct {
+			include *Include
+			target  string
+		}
+		resolved := make(map[string]resolvedInclude)
+		for target, edge := range adjacencyMap[hash] {
+			includes, ok := edge.Properties.Data.([]*Include)
+			if !ok {
+				return nil, fmt.Errorf("task: Failed to get merge options")
+			}
+			for _, include := range includes {
+				resolved[include.Namespace] = resolvedInclude{include: include, target: target}
 			}
 		}
 
-		// Wait for all the go routines to finish
-		if err := g.Wait(); err != nil {
-			return nil, err
+		// Merge the included Taskfiles in the order of the includes section
+		for namespace := range vertex.Taskfile.Includes.Keys() {
+			r, ok := resolved[namespace]
+			if !ok {
+				// An optional include whose Taskfile was not found
+				continue
+			}
+			includedVertex, err := tfg.Vertex(r.target)
+			if err != nil {
+				return nil, err
+			}
+			if err := vertex.Taskfile.Merge(includedVertex.Taskfile, r.include); err != nil {
+				return nil, err
+			}
 		}
 	}
 
